@@ -6,7 +6,7 @@ PROPS = {
                      "certainly stored valid salt exists) on random Store/Get/Reset sequences and on concurrent histories (porcupine). Every frame the real connection "
                      "writes at fake time t must carry the last salt told by the server or an announced future salt valid past t+5min (a kept future salt is tolerated "
                      "only when nothing valid past the lookahead is stored); a request rejected with bad_server_salt before/after ack must be transmitted exactly twice, "
-                     "the second time with the new salt (also when the rejection arrives inside a burst of unrelated server messages), and never a third time after a second rejection. "
+                     "the second time with the new salt (also when the rejection arrives inside a burst of unrelated server messages, and when 2..4 requests in flight under the same salt are all rejected with the same or different new salts in any order: back to back, strictly one after the other, or interleaved with retransmissions and results), and never a third time after a second rejection. "
                      "Concurrent Invokes with rejections run under the race detector.",
                 note="Trusted: harness/refmodel cipher, generated mt TL encoders, neo fake clock. Scenarios are sampled. The rpc retry timer is disabled so that every "
                      "retransmission is attributable to the bad-salt path. bad_server_salt for non-RPC service messages is not generated (outside the statement).",
